@@ -117,7 +117,7 @@ def build(tier="quick", seed=0):
     b.replayer(f"{worker.key}::*", _replay_worker)
     b.replayer(f"{FMP}::multiprocessing_run#journal_creation*", _replay_journal_kill)
     b.replayer(f"{FMP}::multiprocessing_run#*", _replay_restart)
-    b.assume("NOT DECIDED: kill points inside and between bookkeeping steps, process schedules, pool sizes 4..16, subsets of failing cases across a real restart — no contract on a single call can state them and no verifier for OS effects is available")
+    b.assume("DECIDED on a ghost file system (event order = program order of the real statements): kill points between any two file-system events of one worker call (directory, result file, success marker) and of the journal creation, including the middle of a write. NOT DECIDED: process schedules, pool sizes 4..16, a kill of the parent while workers run on, subsets of failing cases across a real restart (bounded native run only), partially written .npz files, the log appends of the restart branch - no contract on a single call can state them and no verifier for OS effects is available")
     b.assume("ghost file system: open(path,'w'), os.makedirs and np.savez create the named path; the event order of one worker call is the program order")
     b.assume("journal round trip is a bounded check of the extracted writer / reader statements on generated inputs, not a proof")
     return b
